@@ -8,7 +8,10 @@ TRUSTED = [
     "LocationToFailAllocNode::{init, failAtAllocNumber, failNthAllocAt, shouldFail}, FailableMemoryAllocator::{constructor initialisers, "
     "failAllocNumber, failNthAllocAt, alloc_memory, checkAllFailedAllocsWereDone, clearFailedAllocs} and of cpputest_malloc_set_out_of_memory, "
     "_set_not_out_of_memory, _set_out_of_memory_countdown, countdown, cpputest_malloc_location, cpputest_malloc_count_reset/get_count, the calloc "
-    "overflow guard; every regenerated definition is proved equal to the hand model (gen_*_eq) and the Lean driver EXECUTES the regenerated "
+    "overflow guard; translate/extract_failable.py regenerates Gen/FailableConstants.lean: the two countdown constants and, from "
+    "src/CppUTest/MemoryLeakWarningPlugin.cpp, the operator new tables (form -> function pointer, pointer -> function for the default and the "
+    "thread-safe overloads, function -> throws std::bad_alloc on NULL; two body shapes understood, anything else = cannot translate); "
+    "every regenerated definition is proved equal to the hand model (gen_*_eq) and the Lean driver EXECUTES the regenerated "
     "definitions against the real code in this run's correspondence, so a translator error shows up as a disagreement",
     "idioms the translator recognises rather than translates: the cursor walk of alloc_memory (visit every node, unlink + free the firing ones, "
     "keep the others), the free-all loop of clearFailedAllocs, 'new node in front of head_'; statement lists only compared: strdup_alloc, "
@@ -38,7 +41,10 @@ RULE = ("mode fa: workloads of 1-60 allocations over 1-4 locations (pool: a.c tw
         "allocate with the allocator as the CURRENT malloc/new/new[] allocator (alloc_memory, cpputest_malloc_location, operator "
         "new/new[] with location, plain new / new[], nothrow new / new[], the malloc and new MACROS), a stream that designates "
         "one location and allocates at its look-alikes, 0-6 designations of both kinds interleaved with the allocations "
-        "(duplicates, several at one location, zero/negative/too-late numbers), checks and clears interleaved; plus, for "
+        "(duplicates, several at one location, zero/negative/too-late numbers), checks and clears interleaved, in the default and "
+        "(op `ts on`, also switched in the middle of a history) in the THREAD-SAFE overload mode "
+        "(MemoryLeakWarningPlugin::turnOnThreadSafeNewDeleteOverloads); stream 'forms': each of the ten forms in both overload modes as "
+        "the designated allocation and as its undesignated neighbour, on every run; plus, for "
         "sampled workloads, every allocation point in turn as the single designated one, by global index and by "
         "location x local index; mode c: countdown -3..12 followed by mixed malloc/strdup/strndup/calloc calls, realloc/free "
         "(outside the countdown; malloc_count judged after every call), set/unset out-of-memory interleaved; mode fc (stream 'over'): the "
@@ -101,6 +107,8 @@ def eff(loc, fam):
 def gen_fa(rng, nalloc, malformed=False):
     """free mix of designations, allocations, checks, clears"""
     ops = ["mode fa"]
+    if rng.random() < 0.4:
+        ops.append("ts on")                          # the thread-safe operator new / malloc overloads
     locs = pick_locs(rng)
     ndes = rng.randint(0, 6)
     # positions (in allocation count) at which designations are made
@@ -141,6 +149,8 @@ def gen_fa(rng, nalloc, malformed=False):
         elif x < 0.10:
             ops.append("clear")
             done = 0
+        elif x < 0.13:
+            ops.append(rng.choice(["ts on", "ts off"]))       # switching in the middle of a history
         fi, ln = rng.choice(locs)
         ops.append("alloc %d %d %d %s" % (rng.choice([1, 8, 24, 100]), fi, ln, fam_for(rng, (fi, ln))))
         done += 1
@@ -177,15 +187,16 @@ def single_point_cases(rng, wl):
     out = []
     for k in range(len(wl)):
         (fi, ln), famk = wl[k]
-        # by global index, designated up front
-        ops = ["mode fa", "failnum %d" % (k + 1)]
+        # by global index, designated up front; one of the two cases of a point runs with the thread-safe overloads
+        tsg = rng.random() < 0.5
+        ops = ["mode fa"] + (["ts on"] if tsg else []) + ["failnum %d" % (k + 1)]
         ops += ["alloc 8 %d %d %s" % (l[0], l[1], fam) for (l, fam) in wl]
         ops.append("check")
         out.append(ops)
         # by location x local index, designation made after `start` allocations
         start = rng.randint(0, k)
         local = sum(1 for (l, f) in wl[start:k + 1] if eff(l, f) == eff((fi, ln), famk))
-        ops = ["mode fa"]
+        ops = ["mode fa"] + ([] if tsg else ["ts on"])
         for i, (l, fam) in enumerate(wl):
             if i == start:
                 dfi, dln = fi, ln
@@ -207,7 +218,7 @@ def single_point_cases(rng, wl):
 
 def gen_locations(rng):
     kind = rng.choice(["samecontent", "directory", "unknown", "macro"])
-    ops = ["mode fa"]
+    ops = ["mode fa"] + (["ts on"] if rng.random() < 0.4 else [])
     if kind == "samecontent":
         des, allocs = (0, 10), [((2, 10), None), ((0, 10), None), ((1, 10), None), ((2, 11), None)]
     elif kind == "directory":
@@ -279,7 +290,7 @@ def gen_fc(rng):
     plain C calls report, and explicit locations reached through cpputest_malloc_location), countdown and set / unset
     out-of-memory.  The generator follows the C-level state so that `notoom` is (almost) only sent while out-of-memory is
     simulated: sent at another moment it resets the malloc allocator to the default one (see ASSUMPTIONS)."""
-    ops = ["mode fc"]
+    ops = ["mode fc"] + (["ts on"] if rng.random() < 0.3 else [])
     oom, cd = False, None
     locs = [(5, 0), (5, 0), (rng.choice([0, 1, 2, 3]), rng.choice(LINES)), (6, 0)]
     done = 0
@@ -406,7 +417,28 @@ def gen_boundary(rng):
         ops = ["mode c", "cd %d" % n] + [rng.choice(tick) for _ in range(n + 1)]
         ops += [rng.choice(["cd 2", "cd 5", "oom", "cd -1"])] + [rng.choice(tick) for _ in range(3)] + ["notoom"] + [rng.choice(tick) for _ in range(2)]
         ops += ["cd 1", rng.choice(tick), "notoom", rng.choice(tick)]
+    if ops[0] == "mode fa" and rng.random() < 0.3:
+        ops.insert(1, "ts on")
     return ops
+
+
+ALLFAMS = "dmMnapqtuW"
+
+
+def gen_forms():
+    """every allocation form, in the default and in the thread-safe overload mode, once as the designated allocation (by global
+    index; then a second, undesignated one) and once undesignated behind a designated neighbour: a fixed set, run on every seed"""
+    out = []
+    for ts in (False, True):
+        for fam in ALLFAMS:
+            fi, ln = (5, 0) if fam in PLAIN else (6, 0 if fam == "M" else 1) if fam in "MW" else (0, 10)
+            a = "alloc 8 %d %d %s" % (fi, ln, fam)
+            head = ["mode fa"] + (["ts on"] if ts else [])
+            out.append(head + ["failnum 1", a, a, "check"])
+            out.append(head + ["failnum 2", a, a, a, "check"])
+            dfi, dln = (5, 0) if fam in PLAIN else (fi, ln)
+            out.append(head + ["failat 2 %d %d" % (dfi, dln), a, "ts off" if ts else "ts on", a, a, "check"])
+    return out
 
 
 def generate(rng, tier):
@@ -433,6 +465,8 @@ def generate(rng, tier):
         out.append(("over", gen_fc(rng)))
     for i in range(300 if quick else 3000):
         out.append(("boundary", gen_boundary(rng)))
+    for ops in gen_forms():
+        out.append(("forms", ops))
     for i in range(n // 10):
         if rng.random() < 0.6:
             out.append(("malformed", gen_fa(rng, rng.choice([2, 6, 12]), malformed=True)))
@@ -453,9 +487,19 @@ def nontrivial(r):
 
 def observe(r, rep):
     mode = ""
+    ts = False
     for l in r.impl:
         if l.startswith("> mode "):
             mode = l.split()[2]
+        elif l.startswith("> ts "):
+            ts = l == "> ts on"
+            rep.count("branch.overloads_" + ("threadsafe" if ts else "default_again"))
+        elif ts and l in ("ret null", "ret throw", "ret ok"):
+            rep.count("branch.%s.threadsafe_alloc_%s" % (mode, l.split()[1]))
+            if l == "ret ok":
+                rep.count("branch.%s.alloc_succeeds" % mode)
+            else:
+                rep.count("branch.%s.alloc_fails_%s" % (mode, l.split()[1]))
         elif l == "ret ok":
             rep.count("branch.%s.alloc_succeeds" % mode)
         elif l in ("ret null", "ret throw"):
@@ -472,7 +516,7 @@ def observe(r, rep):
         elif l.startswith("freed ") and l != "freed -":
             rep.count("branch.clear_releases_pending")
         elif l.startswith("> alloc "):
-            rep.count("family." + l.split()[-1])
+            rep.count("family." + l.split()[-1] + (".threadsafe" if ts else ""))
             if l.split()[2] in ("<unknown>", "<harness>"):
                 rep.count("branch.alloc_at_" + l.split()[2].strip("<>"))
         elif l.startswith("text "):
@@ -487,7 +531,7 @@ def observe(r, rep):
             rep.count("branch.c.strdup_copy")
 
 
-LEVEL_TEXT = ("Machine-checked Lean 4 theorems (81 obligations) over an executable model of FailableMemoryAllocator / LocationToFailAllocNode "
+LEVEL_TEXT = ("Machine-checked Lean 4 theorems (86 obligations) over an executable model of FailableMemoryAllocator / LocationToFailAllocNode "
               "and of the C-level malloc countdown, for every history of designations, allocations (any locations), checks and "
               "clears of any length: an allocation fails iff it is designated (global index since construction/clear, or local "
               "index at its location since the designation was made) - also as one statement about the result list of a whole history "
@@ -506,7 +550,10 @@ LEVEL_NOTE = ("Regenerated and proved: see TRUSTED. Recognised as idioms (an edi
               "harness searches for a failing input): the two list loops, the node push. Observed by the harness, not proved: plain new / "
               "new[] report \"<unknown>\":0 and throw std::bad_alloc, the nothrow forms and the malloc macro return NULL, the macros report "
               "the source file and line of the statement; that operator new turns a NULL from the allocator into std::bad_alloc and that the "
-              "tracked malloc/new paths hand file and line through to alloc_memory unchanged (hand-modelled as mallocOver for the malloc path, "
+              "tracked malloc/new paths hand file and line through to alloc_memory unchanged (regenerated and proved: which function each "
+              "operator new form reaches in the default and in the thread-safe overload mode and whether that function's body throws on NULL - "
+              "gen_formThrows_eq, outcome_independent_of_overload_mode, regenerated_outcome_iff_designated; the allocMemory call inside those "
+              "bodies and the MemLeakScopedMutex are only recognised) (hand-modelled as mallocOver for the malloc path, "
               "exercised by families m/M and mode fc); byte content of strdup/strndup/calloc results (model + oracle compare them, the copy "
               "loop itself belongs to C05); UtestShell::failWith / StringFromFormat behind the check (exactly one failure and its text are "
               "compared). int wrap-around of the counters is outside the claim.")
